@@ -86,7 +86,47 @@ func errFlag(err error) string {
 	return "-"
 }
 
+// results handed to the caller earlier that the caller still holds: a later call must not
+// write to them (C09).  Bounded ring; only used by the hist/conc streams.
+type heldResult struct {
+	live []byte
+	snap []byte
+}
+
+var heldMu sync.Mutex
+var held []heldResult
+var holdResults = false
+
+func hold(b []byte) {
+	if !holdResults || len(b) == 0 {
+		return
+	}
+	heldMu.Lock()
+	defer heldMu.Unlock()
+	if len(held) >= 64 {
+		held = held[1:]
+	}
+	held = append(held, heldResult{live: b, snap: append([]byte(nil), b...)})
+}
+
+// heldChanged reports (once) that some earlier result no longer has its bytes
+func heldChanged() bool {
+	heldMu.Lock()
+	defer heldMu.Unlock()
+	changed := false
+	for i := range held {
+		if !bytes.Equal(held[i].live, held[i].snap) {
+			changed = true
+			held[i].snap = append([]byte(nil), held[i].live...)
+		}
+	}
+	return changed
+}
+
 func obsOf(outb []byte, err error) string {
+	if err == nil {
+		hold(outb)
+	}
 	if err != nil {
 		n := "n"
 		if outb != nil {
@@ -1346,6 +1386,8 @@ func main() {
 		streamCorpus()
 	case "replay":
 		replay()
+	case "e2x":
+		streamE2(int(seed), n)
 	case "small":
 		// seed = shard index, n = number of shards
 		streamSmall(int(seed), n)
